@@ -2,6 +2,7 @@ package main
 
 import (
 	"fmt"
+	"reflect"
 	"strings"
 
 	"verif/harness/internal/gal"
@@ -118,6 +119,48 @@ func runC17(c *Ctx) error {
 			cell += fmt.Sprintf(":viol%d", len(exps))
 			emit(&walkCall{Entry: "struct", Src: &s}, exps, cell)
 			w.Count("entry.struct")
+		}
+		// ---- int-keyed map of objects, four-member botheq, botheq over slices / maps / structs
+		if i%2 == 0 {
+			var s WGS2
+			var exps []expE
+			cell := "wgs2"
+			nk := r.Range(0, 2)
+			if nk > 0 {
+				s.MI = map[int]WG{}
+			}
+			for k := 0; k < nk; k++ {
+				p := randWG(r)
+				s.MI[k+3] = p.wg()
+				exps = append(exps, groupExps(p, fmt.Sprintf("WGS2.MI[%d]", k+3))...)
+			}
+			cell += fmt.Sprintf(":mi%d", nk)
+			four := [][4]int{{0, 0, 0, 0}, {2, 2, 2, 2}, {2, 9, 2, 2}, {2, 2, 9, 2}, {2, 2, 2, 9}, {2, 9, 2, 9}, {0, 2, 0, 0}, {9, 2, 2, 2}}[r.Intn(8)]
+			s.A, s.B, s.C, s.D = four[0], four[1], four[2], four[3]
+			if !(four[0] == four[1] && four[1] == four[2] && four[2] == four[3]) {
+				exps = append(exps, expE{"G", "", `botheq:"WGS2.A", "WGS2.B", "WGS2.C", "WGS2.D"`})
+				cell += ":four-differ"
+			}
+			sl := [][2][]string{{nil, nil}, {{"a", "b"}, {"a", "b"}}, {{"a", "b"}, {"a", "c"}}, {{"a"}, {"a", "a"}}, {nil, {}}, {{}, {}}}[r.Intn(6)]
+			s.S1, s.S2 = sl[0], sl[1]
+			if !reflect.DeepEqual(sl[0], sl[1]) {
+				exps = append(exps, expE{"G", "", `botheq:"WGS2.S1", "WGS2.S2"`})
+				cell += ":slices-differ"
+			}
+			mp := [][2]map[string]int{{nil, nil}, {{"a": 1}, {"a": 1}}, {{"a": 1}, {"a": 2}}, {{"a": 1}, {"b": 1}}, {nil, {}}}[r.Intn(5)]
+			s.M1, s.M2 = mp[0], mp[1]
+			if !reflect.DeepEqual(mp[0], mp[1]) {
+				exps = append(exps, expE{"G", "", `botheq:"WGS2.M1", "WGS2.M2"`})
+				cell += ":maps-differ"
+			}
+			st := [][2]WG1{{{}, {}}, {{X: "a", A: 1}, {X: "a", A: 1}}, {{X: "a", A: 1}, {X: "a", A: 2}}}[r.Intn(3)]
+			s.E1, s.E2 = st[0], st[1]
+			if st[0] != st[1] {
+				exps = append(exps, expE{"G", "", `botheq:"WGS2.E1", "WGS2.E2"`})
+				cell += ":structs-differ"
+			}
+			emit(&walkCall{Entry: "struct", Src: &s}, exps, cell)
+			w.Count("entry.wgs2")
 		}
 		// ---- a top-level slice of objects: each element is its own object
 		if i%3 == 0 {
